@@ -3,6 +3,7 @@ import itertools, math
 import sympy as sp
 from sympy import Symbol, Function, S, sqrt, Rational
 from ..ir import AnalysisBroken, Undecided, show, strip, strip_casts, walk_stmts, stmt_exprs, walk_expr, calls, all_exprs
+from .. import guards as G
 from ..symx import Symx, State, Arr, is_zero, Sign2
 
 L = 'libphysica::'
@@ -36,6 +37,9 @@ def check(prog, ctx):
     ctx.sub('dawson', dawson, prog, ctx)
     ctx.sub('compositions', compositions, prog, ctx)
     ctx.sub('vsh', vsh, prog, ctx)
+    ctx.rule('C17.g', 'dependency: Inv_Erf returns the root found by Find_Root; it inherits the obligations of C02 about that function '
+             '(bracket handling, Ridders update, stopping test)', 8)
+    ctx.inherit('C02', lambda o: o.rule.startswith('C02.'), 'C17.g', 'Inv_Erf')
 
 
 def signs(prog, ctx):
@@ -388,52 +392,70 @@ def vsh(prog, ctx):
             probs.append('expected three nested loops over the component, l_hat and m_hat (found %d loops)' % len(loops))
         elif roles is not None:
             from ..guards import CEval
+            from ..ir import stmt_children
+            # the set of (component, l_hat, m_hat) for which the coefficient is added, from the loops and tests that enclose the call
+            # (whatever their nesting order, and whether |m_hat| <= l_hat is a test or is folded into the loop bounds)
+            def stack_to(node, acc):
+                if any(x_ is cs[0] for e_ in stmt_exprs(node) for x_ in walk_expr(e_)) and node['k'] in ('Expr', 'Decl', 'Return'):
+                    return acc
+                if node.get('k') == 'If':
+                    for key_, neg_ in (('then', False), ('else', True)):
+                        if node.get(key_) is not None:
+                            r_ = stack_to(node[key_], acc + [(node, neg_)])
+                            if r_ is not None:
+                                return r_
+                    return None
+                for ch_ in stmt_children(node):
+                    r_ = stack_to(ch_, acc + ([(node, None)] if node['k'] == 'For' else []))
+                    if r_ is not None:
+                        return r_
+                return None
+            nest = stack_to(fn.body, [])
+            gsc = G.GuardScan(prog, fn, {})
+            names = {roles[r_]['name']: r_ for r_ in roles}
             uneval = []
-            for (lv, mv) in ((3, 1), (2, 2), (2, -2), (1, 0), (4, -4)):
-                want_sets = {'component': {0, 1, 2}, 'l_hat': {lv - 1, lv + 1}, 'm_hat': {mv - 1, mv, mv + 1}}
-                for role, want in want_sets.items():
-                    s_ = by_id[roles[role]['id']]
-                    d = s_['init']['decls'][0]
-                    row = {ln: lv, mn: mv}
-                    try:
-                        v = CEval(prog, row).ev(d['init'])
-                        seen = set()
-                        for _ in range(12):
-                            row[d['name']] = v
-                            if not CEval(prog, row).ev(s_['cond']):
+            try:
+                if nest is None:
+                    raise Undecided('coefficient call not found under the loops')
+                for (lv, mv) in ((3, 1), (2, 2), (2, -2), (1, 0), (4, -4), (0, 0)):
+                    got = set()
+
+                    def run(level, row):
+                        if level == len(nest):
+                            got.add((row[roles['component']['name']], row[roles['l_hat']['name']], row[roles['m_hat']['name']]))
+                            return
+                        node, neg = nest[level]
+                        if node['k'] == 'If':
+                            c_ = bool(CEval(prog, row).ev(gsc.subst(node['cond'])))
+                            if c_ != bool(neg):
+                                run(level + 1, row)
+                            return
+                        d = node['init']['decls'][0]
+                        v = CEval(prog, row).ev(gsc.subst(d['init']))
+                        for _ in range(16):
+                            row2 = dict(row)
+                            row2[d['name']] = v
+                            if not CEval(prog, row2).ev(gsc.subst(node['cond'])):
                                 break
-                            seen.add(v)
-                            inc = strip(s_['inc'])
+                            run(level + 1, row2)
+                            inc = strip(node['inc'])
                             if inc['k'] == 'Un' and inc['op'] == '++':
                                 v += 1
                             elif inc['k'] == 'Bin' and inc['op'] == '+=':
-                                v += CEval(prog, row).ev(inc['rhs'])
+                                v += CEval(prog, row2).ev(gsc.subst(inc['rhs']))
                             else:
                                 raise Undecided('increment ' + show(inc))
-                        if seen != want:
-                            probs.append('for (l,m)=(%d,%d) the loop over %s visits %s, expected %s' % (lv, mv, role, sorted(seen), sorted(want)))
-                    except (Undecided, KeyError) as e:
-                        uneval.append('loop over %s not evaluable: %s' % (d['name'], e))
+                    run(0, {ln: lv, mn: mv})
+                    want = set((c_, lh_, mh_) for c_ in (0, 1, 2) for lh_ in (lv - 1, lv + 1) for mh_ in (mv - 1, mv, mv + 1) if abs(mh_) <= lh_)
+                    if got != want:
+                        miss, extra = sorted(want - got), sorted(got - want)
+                        probs.append('for (l,m)=(%d,%d) the terms (component,l_hat,m_hat) %s are missing and %s are extra' % (lv, mv, miss[:4], extra[:4]))
+            except (Undecided, KeyError) as e:
+                uneval.append('loop nest not evaluable: %s' % e)
             if uneval and not probs:
                 ctx.undecided(R, name, fn, '; '.join(sorted(set(uneval))))
                 continue
             lhn, mhn = roles['l_hat']['name'], roles['m_hat']['name']
-            ifs = [s for s in walk_stmts(fn.body) if s['k'] == 'If']
-            okf = False
-            if len(ifs) == 1:
-                okf = True
-                for lh, mh in itertools.product((0, 1, 2, 3), (-3, -2, -1, 0, 1, 2, 3)):
-                    try:
-                        got = CEval(prog, {lhn: lh, mhn: mh, ln: 2, mn: 0}).ev(ifs[0]['cond'])
-                    except (Undecided, KeyError):
-                        okf = False
-                        break
-                    if bool(got) != (abs(mh) <= lh):
-                        okf = False
-                # the coefficient call must be under the filter
-                okf = okf and any(c_ is cs[0] for c_ in calls(ifs[0]['then']))
-            if not okf:
-                probs.append('filter |m_hat| <= l_hat missing or different')
             sh = [c_ for c_ in calls(fn) if (c_.get('callee') or {}).get('q') == L + 'Spherical_Harmonics']
             if len(sh) != 1 or [show(strip_casts(a_)) for a_ in sh[0]['args']] != [lhn, mhn, fn.params[2]['name'], fn.params[3]['name']]:
                 probs.append('basis function call is %s' % [show(c_) for c_ in sh])
